@@ -120,6 +120,76 @@ def run(ctx):
                 pl = sp.decode_length(msg + tail)
                 if pl != len(msg):
                     ctx.violation('decode_length(msg + tail) != len(msg)', {'codec': codec, 'module': text, 'msg': msg.hex(), 'got': pl})
+                if codec != 'ber':
+                    continue
+                # the same message in other BER forms (padded lengths, segmented strings incl. zero segments, inner indefinite lengths)
+                from .. import tlv
+                try:
+                    node, _ = tlv.parse(msg)
+                except Exception:
+                    continue
+                for forms in (tlv.Forms(pad=0.3, seg=0.8, nest=0.3), tlv.Forms(pad=0.2, seg=0.6, nest=0.2, indef=0.4)):
+                    alt = tlv.reser(t, node, True, rng, forms)
+                    if alt == msg:
+                        continue
+                    try:
+                        n2, e2 = tlv.parse_any(alt)
+                        certified = e2 == len(alt) and tlv.canonical(t, n2) == tlv.canonical(t, node)
+                    except Exception:
+                        certified = False
+                    if not certified:
+                        ctx.count('dwl.variant-not-certified')
+                        continue
+                    ctx.case(('dwl-variant', alt, tail))
+                    tail2 = tail if rng.random() < 0.5 else b'\x00\x00' + tail      # (octets that look like end-of-contents right behind the message)
+                    try:
+                        with core.time_limit(10):
+                            d4, n4 = sp.decode_with_length('A', alt + tail2)
+                    except Exception as e:
+                        ctx.count('dwl.variant.err.' + type(e).__name__)   # acceptance of every valid form is C04's business
+                        continue
+                    if n4 != len(alt):
+                        ctx.violation('decode_with_length(variant + tail) reports another end of the message than the length octets of the variant',
+                                      {'codec': codec, 'module': text, 'msg': msg.hex(), 'variant': alt.hex(), 'tail': tail2.hex(), 'length': n4, 'expected': len(alt), 'decoded': repr(d4)[:200]})
+                        continue
+                    try:
+                        with core.time_limit(10):
+                            d3 = sp.decode('A', alt)
+                    except Exception as e:
+                        ctx.count('dwl.variant.err.' + type(e).__name__)
+                        continue
+                    ctx.count('dwl.variant.ok')
+                    if n4 != len(alt) or not py_equal(t, d3, d4) or not py_equal(t, d1, d3):
+                        ctx.violation('decode_with_length(variant + tail) differs from (decode(msg), len(variant)) for another BER form of the message',
+                                      {'codec': codec, 'module': text, 'msg': msg.hex(), 'variant': alt.hex(), 'tail': tail.hex(), 'length': n4, 'expected': len(alt),
+                                       'decode_msg': repr(d1)[:200], 'decode_variant': repr(d3)[:200], 'decode_with_length': repr(d4)[:200]})
+                    if alt[len(tlv.parse_tag(alt, 0)[0])] != 0x80:
+                        pl = sp.decode_length(alt + tail)
+                        if pl != len(alt):
+                            ctx.violation('decode_length(variant + tail) != len(variant)', {'codec': codec, 'module': text, 'variant': alt.hex(), 'got': pl})
+
+    # (b') constructed strings with ZERO segments (X.690 8.7.3.2 / 8.21.6: "zero, one or more encodings"): definite length 0 is not "indefinite"
+    zs = [('M DEFINITIONS AUTOMATIC TAGS ::= BEGIN A ::= OCTET STRING END', '2400', b''),
+          ('M DEFINITIONS AUTOMATIC TAGS ::= BEGIN A ::= OCTET STRING END', '24050401122400', b'\x12'),
+          ('M DEFINITIONS AUTOMATIC TAGS ::= BEGIN A ::= IA5String END', '3600', ''),
+          ('M DEFINITIONS AUTOMATIC TAGS ::= BEGIN A ::= SEQUENCE { s OCTET STRING, b BOOLEAN } END', '3005a0008101ff', {'s': b'', 'b': True}),
+          ('M DEFINITIONS AUTOMATIC TAGS ::= BEGIN A ::= SEQUENCE OF OCTET STRING END', '300724000401412400', [b'', b'A', b''])]
+    for text, hx, want in zs:
+        st, sp = impl.compile_text(text, 'ber')
+        msg = bytes.fromhex(hx)
+        for tail in (b'', b'\x00\x00', b'\x04\x01\xaa\x00\x00', b'\xff'):
+            ctx.case(('zero-segments', text, hx, tail))
+            try:
+                with core.time_limit(10):
+                    d2, n = sp.decode_with_length('A', msg + tail)
+                    pl = sp.decode_length(msg + tail)
+            except Exception as e:
+                ctx.violation('a constructed string with zero segments followed by %d more octets is not framed (%s)' % (len(tail), type(e).__name__),
+                              {'module': text, 'msg': hx, 'tail': tail.hex(), 'error': str(e)[:200]})
+                continue
+            if n != len(msg) or pl != len(msg) or (want is not None and d2 != want):
+                ctx.violation('decode_with_length / decode_length disagree with the length octets on a message that holds a constructed string with zero segments',
+                              {'module': text, 'msg': hx, 'tail': tail.hex(), 'decode_with_length': repr((d2, n)), 'decode_length': pl, 'expected_length': len(msg), 'expected_value': repr(want)})
 
     # (c) messages of a NEWER version (unknown extension additions / alternatives after known ones): "any valid definite-length
     # encoding" includes those — the receiver's decode_with_length must still report the whole message, whatever it skips inside
